@@ -198,6 +198,15 @@ def process_chunk(arg):
                     S['outcomes'].add((sub, 'writer_declined'))
                     continue
                 extra = {}
+                if c['kind'] in ('real8', 'units16'):  # measured, not assumed: how many written reals are exact powers of 16
+                    try:
+                        for off, rt, dt, pl in G.split_records(data):
+                            if dt == 5:
+                                for q in range(0, len(pl), 8):
+                                    if int.from_bytes(pl[q:q + 8], 'big') & ((1 << 56) - 1) in (1 << 52, 0) and pl[q:q + 8] != bytes(8):
+                                        inc('d2_real8_power_of_16_written')
+                    except G.GdsError:
+                        pass
                 mism = C.d2_compare(data, src, c['max_points'], extra, r.get('history') if c['kind'] == 'prophist' else None)
                 for k, v in extra.items():
                     inc(k, v)
